@@ -1,9 +1,11 @@
 """C02 - MDIB version counters are monotonic, gap-free and referentially consistent."""
 from __future__ import annotations
 
+import ast
+
 import z3
 
-from pyvc.api import (FnCheck, SeqCheck, LoopSpec, Pure, Inline, register, Build, V, Val, SeqVal, IntS, RealS, BoolS,
+from pyvc.api import (FnCheck, SeqCheck, ScanCheck, LoopSpec, Pure, Inline, register, Build, V, Val, SeqVal, IntS, RealS, BoolS,
                       StrS, NONE, Raise, Unsupported, fresh, vany, vint, vreal, vbool, vstr, vref, as_int, unbox_as,
                       truthy, field)
 from pyvc.state import FRESH_BASE
@@ -1097,8 +1099,9 @@ class ContextWriteEntity(FnCheck):
                 return z3.BoolVal(True)
             ob = lambda n, f: ex_.oblige(st, 'handle.' + n, f, kind='loop')   # noqa: E731
             item, cp = st.ghost.get('c:item'), st.ghost.get('c:copy')
+            # emitted on every path so that the name is part of the recorded baseline
+            ob('every_listed_handle_is_queued', z3.BoolVal(item is not None))
             if item is None:
-                ob('every_listed_handle_is_queued', z3.BoolVal(False))
                 return z3.BoolVal(True)
             old, new = item
             ob('queued_with_the_stored_state', old == z3.If(self.has_old.e, Val.ref(self.old.e), Val.none))
@@ -1774,3 +1777,44 @@ class DescrTxRemoveEntity(_DescrTxBase):
         ex.oblige(st, 'exactly_one_remove_descriptor_with_the_entity_handle',
                   calls[0] == Val.str(self.handle.e) if len(calls) == 1 else z3.BoolVal(False))
         ex.oblige(st, 'pending_updates_only_through_remove_descriptor', self.unchanged_queue(st0, st))
+
+
+@register
+class TransactionLockIsExclusive(ScanCheck):
+    id = 'C02.transaction_lock_is_not_reentrant'
+    prop = 'C02'
+    doc = ('the "one writer at a time" argument of C02.transaction_manager rests on the kind of _tr_lock: it is created '
+           'exactly once, in ProviderMdib.__init__, as a threading.Lock - NOT a re-entrant lock, which would let the '
+           'thread that has a transaction open start (and commit) a second one that computed its new MdibVersion from '
+           'the same committed version; _tr_lock is assigned nowhere else in the mdib package')
+
+    def scan(self, repo):
+        out = []
+        sites = []
+        for mname in ('sdc11073.mdib.providermdib', 'sdc11073.mdib.mdibbase', 'sdc11073.mdib.providermdibxtra',
+                      'sdc11073.mdib.transactions', 'sdc11073.mdib.entityprovidermdib'):
+            try:
+                mod = repo.module(mname)
+            except Exception:  # noqa: BLE001
+                mod = None
+            if mod is None:
+                continue
+            imported = {}
+            for n in ast.walk(mod.tree):
+                if isinstance(n, ast.ImportFrom) and n.module == 'threading':
+                    for a in n.names:
+                        imported[a.asname or a.name] = a.name
+            for n in ast.walk(mod.tree):
+                tgts = n.targets if isinstance(n, ast.Assign) else [n.target] if isinstance(n, (ast.AnnAssign, ast.AugAssign)) else []
+                for t in tgts:
+                    if isinstance(t, ast.Attribute) and t.attr == '_tr_lock':
+                        v = n.value
+                        kind = None
+                        if isinstance(v, ast.Call) and not v.args and not v.keywords:
+                            f = ast.unparse(v.func)
+                            kind = imported.get(f) if isinstance(v.func, ast.Name) else (f[len('threading.'):] if f.startswith('threading.') else None)
+                        sites.append((mname, kind, n.lineno))
+        provider_sites = [s for s in sites if s[0] == 'sdc11073.mdib.providermdib']
+        out.append(('transaction_lock_created_once_per_mdib_class', len(provider_sites) == 1, {'sites': str(sites)}))
+        out.append(('transaction_lock_is_a_plain_threading_lock', bool(sites) and all(k == 'Lock' for _, k, _ in sites), {'sites': str(sites)}))
+        return out
